@@ -39,6 +39,9 @@ var extraPaths = []refPath{
 	{"reg.io/a:tag", false}, {"other.io/x", true}, {"reg.io/", false}, {"/a", false}, {"reg.io//a", false}, {"reg.io/a*", false},
 	{"*", false}, {"", false}, {"reg.io/a ", false}, {" reg.io/a", false}, {"reg.io/a/b/", false}, {"reg.io/a/bc", true}, {"reg.io/aa", true},
 	{"reg.io:5000/a/b", true}, {"reg.io:50000/a", true}, {"localhost/a/b", true}, {"Reg.io/a", true},
+	// a well-formed host[:port] followed by something else before the first slash is not a registry
+	{"reg.io:5000x/a", false}, {"reg.io:/a", false}, {"reg.io:5000:5001/a", false}, {"reg.io./a", false}, {"reg.io-/a", false}, {"reg.io_5000/a", false},
+	{"reg.io?x=1/a", false}, {"reg.io@evil.example/a", false}, {"reg.io /a", false}, {"reg.io:5000 /a", false},
 }
 
 const digestSuffix = "@sha256:aaaaaaaaaaaaaaaaaaaaaaaaaaaaaaaaaaaaaaaaaaaaaaaaaaaaaaaaaaaaaaaa"
@@ -292,6 +295,57 @@ func main() {
 				}
 			}
 		}
+		// ---- 2b. the same through the top-level entry point notation.Verify over a repository (artifact signed, not signed,
+		// or not resolvable): with the library's verifier a reference nothing applies to is refused with the
+		// no-applicable-policy error whatever the repository holds; with a verifier that only forwards Verify (a logging
+		// wrapper) the policy is consulted once a signature was fetched - the reference it is asked about is the caller's
+		if i%3 != 0 {
+			return
+		}
+		for pi, p := range paths {
+			for si, sf := range []string{"@" + desc.Digest.String(), ":v1"} {
+				for ri, state := range []string{"signed", "unsigned", "unresolvable"} {
+					if (pi+si+ri+i)%2 == 1 {
+						continue
+					}
+					ref := p.path + sf
+					want := model(d, p, si == 0)
+					for _, wrapped := range []bool{false, true} {
+						var vv notation.Verifier = v
+						if wrapped {
+							vv = forwardOnly{v}
+						}
+						repo := &fakeRepo{state: state, desc: desc, sig: sig}
+						got, outs, verr := notation.Verify(context.Background(), vv, repo, notation.VerifyOptions{ArtifactReference: ref, MaxSignatureAttempts: 3})
+						r.Eval(fmt.Sprintf("top|%d|%s|%s|%v", i, ref, state, wrapped))
+						wit := map[string]any{"document": pd, "reference": ref, "repository": state, "verifier_forwards_verify_only": wrapped, "error": fmt.Sprint(verr), "model": want}
+						sg := map[string]string{"kind": "top-level-no-applicable-policy", "wrapped": fmt.Sprint(wrapped), "repository": state, "tag": fmt.Sprint(si == 1)}
+						var noPol notation.ErrorNoApplicableTrustPolicy
+						var retrieval notation.ErrorSignatureRetrievalFailed
+						switch {
+						case want == "" && !wrapped:
+							r.Event("top-level-refused")
+							if verr == nil || !errors.As(verr, &noPol) {
+								r.Violation(sg, fmt.Sprintf("notation.Verify(%q) over a repository whose artifact is %s: expected the no-applicable-policy refusal, got err=%v (%T)", ref, state, verr, verr), wit)
+							}
+						case want == "" && wrapped:
+							r.Event("top-level-refused-through-a-forwarding-verifier")
+							if verr == nil || (!errors.As(verr, &noPol) && !errors.As(verr, &retrieval)) {
+								r.Violation(sg, fmt.Sprintf("notation.Verify(%q) with a verifier that only forwards Verify, artifact %s: no statement applies to this reference, got descriptor=%s outcomes=%d err=%v", ref, state, got.Digest, len(outs), verr), wit)
+							}
+							if state == "signed" && si == 1 && p.valid && verr != nil && !errors.As(verr, &noPol) && !errors.As(verr, &retrieval) {
+								r.Violation(sg, fmt.Sprintf("notation.Verify(%q): a tag-only reference selects nothing; got err=%v", ref, verr), wit)
+							}
+						case state == "signed":
+							r.Event("top-level-applied")
+							if verr != nil || (want != d.skip && got.Digest != desc.Digest) {
+								r.Violation(map[string]string{"kind": "top-level-applied-statement", "wrapped": fmt.Sprint(wrapped)}, fmt.Sprintf("notation.Verify(%q): statement %q applies and trusts the signer, got err=%v", ref, want, verr), wit)
+							}
+						}
+					}
+				}
+			}
+		}
 	}, r.PanicViolation("verifier.Verify"))
 
 	// ---- 3. blob documents
@@ -423,6 +477,40 @@ func main() {
 }
 
 // deepCopy clones a document through JSON so that no map or slice is shared with the generator's copy.
+// forwardOnly is a verifier that forwards Verify and nothing else (what a logging / metrics wrapper looks like).
+type forwardOnly struct{ inner notation.Verifier }
+
+func (f forwardOnly) Verify(ctx context.Context, desc ocispec.Descriptor, sig []byte, opts notation.VerifierVerifyOptions) (*notation.VerificationOutcome, error) {
+	return f.inner.Verify(ctx, desc, sig, opts)
+}
+
+// fakeRepo is a repository holding one artifact (any tag or digest resolves to it) with one signature, none, or
+// nothing at all.
+type fakeRepo struct {
+	state string // signed unsigned unresolvable
+	desc  ocispec.Descriptor
+	sig   []byte
+}
+
+func (f *fakeRepo) Resolve(ctx context.Context, reference string) (ocispec.Descriptor, error) {
+	if f.state == "unresolvable" {
+		return ocispec.Descriptor{}, errors.New("fake repository: not found")
+	}
+	return f.desc, nil
+}
+func (f *fakeRepo) ListSignatures(ctx context.Context, desc ocispec.Descriptor, fn func([]ocispec.Descriptor) error) error {
+	if f.state != "signed" {
+		return nil
+	}
+	return fn([]ocispec.Descriptor{lib.Desc(ocispec.MediaTypeImageManifest, []byte("signature manifest"))})
+}
+func (f *fakeRepo) FetchSignatureBlob(ctx context.Context, desc ocispec.Descriptor) ([]byte, ocispec.Descriptor, error) {
+	return f.sig, lib.Desc(lib.MediaJWS, f.sig), nil
+}
+func (f *fakeRepo) PushSignature(ctx context.Context, mediaType string, blob []byte, subject ocispec.Descriptor, annotations map[string]string) (ocispec.Descriptor, ocispec.Descriptor, error) {
+	return ocispec.Descriptor{}, ocispec.Descriptor{}, errors.New("fake repository: read-only")
+}
+
 func deepCopy(d *trustpolicy.OCIDocument) *trustpolicy.OCIDocument {
 	out := &trustpolicy.OCIDocument{}
 	if err := json.Unmarshal([]byte(docJSON(d)), out); err != nil {
